@@ -458,6 +458,9 @@ def monitor_trace(t, P):
                     fail('C11', i, 'status.available %d > size %d' % (av, sz))
                 if wt > inget:
                     fail('C11', i, 'status.waiting %d > callers inside get %d' % (wt, inget))
+                # c11_chain: without resize / close max_size is the configured limit and size never exceeds it
+                if norc and d['alive'] and (mx != max0 or sz > mx):
+                    fail('C11', i, 'status() without resize/close: max_size %d (configured %d), size %d' % (mx, max0, sz))
                 if min(mx, sz, av, wt) < 0 or max(mx, sz, av, wt) > 10 ** 6:
                     fail('C11', i, 'status counter wrapped: %s' % (e[1:5],))
                 # exact at rest: every task is done or a getter queued on the semaphore
